@@ -177,6 +177,33 @@ def h_children(st, n):
     return VSeq(H_NCH(n), lambda i, n=n: hnode(H_CH(n, i)), "HNode")
 
 
+# ------------------------------------------------------------ rows of strings --
+STRROW = ext_sort("StrRow")
+RLEN = z3.Function("row.len", STRROW, I)
+RCELL = z3.Function("row.cell", STRROW, I, S)
+
+
+def p_strrow():
+    def mk(ex, st, name):
+        r = z3.Const(name, STRROW)
+        st.assume(RLEN(r) >= 0)
+        return VExt("StrRow", r)
+    return Maker(mk, desc="list[str] (a row of cell strings, symbolic length, read only)")
+
+
+def row_seq(st, r):
+    st.assume(RLEN(r) >= 0)
+    return VSeq(RLEN(r), lambda j, r=r: VStr(RCELL(r, j)), "str")
+
+
+def p_rowseq(at):
+    def mk(ex, st, name):
+        n = z3.Int(f"{name}.len")
+        st.assume(n >= 0)
+        return VSeq(n, lambda i: VExt("StrRow", at(i)), "StrRow")
+    return Maker(mk, desc="list[list[str]] (symbolic number of rows of symbolic length, read only)")
+
+
 STRSET = ext_sort("StrSet")
 MEMBER = z3.Function("set.member", STRSET, S, B)
 EMPTYSET = z3.Const("set.empty", STRSET)
@@ -240,6 +267,9 @@ class C02Executor(Executor):
         if isinstance(v, VExt) and v.sort == "Elem":
             st.assume(ET.NCH(v.t) >= 0)
             return VBool(ET.NCH(v.t) > 0)         # an Element is falsy iff it has no children
+        if isinstance(v, VExt) and v.sort == "StrRow":
+            st.assume(RLEN(v.t) >= 0)
+            return VBool(RLEN(v.t) > 0)
         return super().truth(st, v)
 
     def b_len(self, st, args, kwargs, node):
@@ -250,7 +280,26 @@ class C02Executor(Executor):
         if isinstance(v, VExt) and v.sort == "Elem":
             st.assume(ET.NCH(v.t) >= 0)
             return [(st, VInt(ET.NCH(v.t)))]
+        if isinstance(v, VExt) and v.sort == "StrRow":
+            st.assume(RLEN(v.t) >= 0)
+            return [(st, VInt(RLEN(v.t)))]
         return super().b_len(st, args, kwargs, node)
+
+    def b_enumerate(self, st, args, kwargs, node):
+        if args and isinstance(args[0], VExt) and args[0].sort == "StrRow":
+            args = [row_seq(st, args[0].t)] + list(args[1:])
+        return super().b_enumerate(st, args, kwargs, node)
+
+    def e_GeneratorExp(self, n, st):
+        try:
+            return super().e_GeneratorExp(n, st)
+        except Unsupported as e:
+            if "symbolic iterable" not in str(e):
+                raise
+            # a generator over a sequence of symbolic length whose value is only consumed by an aggregate (max/min/sum):
+            # nothing is known about the aggregate (sound over-approximation; any use of it is then unconstrained)
+            self.exc_any(st.fork(), f"{self.loc(n)} generator over a symbolic sequence")
+            return [(st, VUnk("genexp"))]
 
     def b_int(self, st, args, kwargs, node):
         if len(args) == 1 and isinstance(args[0], VStr) and args[0].const() is None:
@@ -277,6 +326,11 @@ class C02Executor(Executor):
         if op == "Mult" and isinstance(a, VStr) and isinstance(b, VInt) and b.const() is None:
             n = ops.int_term(b)
             return [(st, VStr(z3.If(n > 0, T.REP(a.t, n), lit(""))))]
+        if op == "Add" and isinstance(a, VRef) and isinstance(b, VSeq) and not inplace:
+            head = self.concrete_items(st, a)
+            if head is not None and len(head) == 1 and b.ekind == "StrRow" and isinstance(head[0], VExt) and head[0].sort == "StrRow":
+                h0, el = head[0], b.elem
+                return [(st, VSeq(z3.simplify(b.length + 1), lambda i: ops.same_shape_ite(i == 0, h0, el(z3.simplify(i - 1))), "StrRow"))]
         if op == "Add" and inplace and slist_of(st, a) is not None:
             for (s2, _r) in self.list_method(st, a, "extend", [b], {}, node):
                 return [(s2, None)]
@@ -329,6 +383,9 @@ class C02Executor(Executor):
     def seq_view(self, st, it):
         if isinstance(it, VExt) and it.sort == "Elem":
             return ET.children_view(st, it.t)
+        if isinstance(it, VExt) and it.sort == "StrRow":
+            v = row_seq(st, it.t)
+            return v.length, v.elem
         return super().seq_view(st, it)
 
     # -- string lists ------------------------------------------------------------------------
